@@ -3,7 +3,8 @@
    Collected here: the panic / non-termination sites of the MODELLED components. *)
 From Coq Require Import ZArith List Bool Floats.
 From V Require Import F64 F32 Banana BananaProofs StrainsVec StrainsVecProofs Gradual GradualProofs
-  GenState GenStateProofs ManiaCols ManiaColsProofs Decode DecodeProofs.
+  GenState GenStateProofs ManiaCols ManiaColsProofs Decode DecodeProofs
+  FExact FInt Sections SecTerm.
 Import ListNotations.
 Open Scope Z_scope.
 
@@ -64,3 +65,17 @@ Print Assumptions C05_column_in_bounds.
 Theorem C05_control_points : forall scroll ls, ds_ok (decode_lines scroll ls).
 Proof. exact decode_lines_strict. Qed.
 Print Assumptions C05_control_points.
+
+(* the strain-section loop `while curr.start_time > section_end { ...; section_end += L }` terminates
+   for every object (binary64 arithmetic, proved with Flocq): for a section length that is an integer
+   in [256, 1024] - the source's constants are 400 and 750, see C16_section_facts_now - and finite
+   times within +-2^38 ms every skill is processed completely, whatever its strain functions *)
+Theorem C05_section_loop_terminates :
+  forall (St : Type) (strain_value_at : St -> Z -> float * St)
+         (initial_strain : St -> float -> Z -> float)
+         (L : float) (l : Z) (st0 : St) (times : list float),
+  IntF L l -> 256 <= l <= 1024 -> Forall time_ok times ->
+  exists peaks, skill_export St strain_value_at initial_strain L st0 times = Some peaks
+                /\ (1 <= length peaks)%nat.
+Proof. exact skill_export_total. Qed.
+Print Assumptions C05_section_loop_terminates.
